@@ -519,7 +519,16 @@ ENTRY_NAMES = {"vs_main": ["vs_main", "vs_na\u00efve", "VS_Main", "gr\u00f6\u00d
                "cs_main": ["cs_main", "\u03c3\u03ba\u03b9\u03ac", "update_particles", "cs\u00df"], "vs_shadow": ["vs_shadow", "shadow_\u00e9"]}
 
 
-def role_shader(rng, big_arrays=True, entry_names=False):
+def role_shader(rng, big_arrays=True, entry_names=False, rename=None):
+    S, has_rt = role_shader0(rng, big_arrays, entry_names)
+    if rename is None:
+        rename = rng.random() < 0.35
+    if rename:
+        rename_structs(S, rng)
+    return S, has_rt
+
+
+def role_shader0(rng, big_arrays=True, entry_names=False):
     S = {"structs": [], "globals": [], "consts": [], "overrides": [], "functions": [], "entries": []}
     g = [0]
 
@@ -614,6 +623,44 @@ def role_shader(rng, big_arrays=True, entry_names=False):
         for e in S["entries"]:
             e["name"] = rng.choice(ENTRY_NAMES[e["name"]])
     return S, has_rt
+
+
+STRUCT_NAME_STYLES = [lambda n: n, lambda n: n, lambda n: n.lower(), lambda n: "".join("_" + c.lower() if c.isupper() and i else c.lower() for i, c in enumerate(n)),
+                      lambda n: n[:3] + "_" + n[3:], lambda n: n[0].lower() + n[1:], lambda n: n + "_PBR", lambda n: n.upper()]
+
+
+def rename_structs(S, rng):
+    """give the structs of S names in other styles (snake_case, lower, Mixed_Underscore, camelCase, UPPER): WGSL accepts them all"""
+    mp = {}
+    used = set()
+    for d in S["structs"]:
+        new = rng.choice(STRUCT_NAME_STYLES)(d["name"])
+        if new in used or new in ("in", "box", "dyn", "uniforms", "store", "inner", "data"):
+            new = d["name"]
+        used.add(new)
+        mp[d["name"]] = new
+
+    def fix(t):
+        if isinstance(t, dict):
+            if t.get("k") == "struct" and "name" in t:
+                t["name"] = mp.get(t["name"], t["name"])
+            for v in t.values():
+                fix(v)
+        elif isinstance(t, list):
+            for v in t:
+                fix(v)
+    for d in S["structs"]:
+        d["name"] = mp[d["name"]]
+        fix(d["members"])
+    for g in S["globals"]:
+        fix(g["ty"])
+    for e in S["entries"]:
+        for p_ in e["params"]:
+            if p_["k"] == "struct":
+                p_["ty"] = mp.get(p_["ty"], p_["ty"])
+        if e.get("result", {}).get("k") == "struct":
+            e["result"]["ty"] = mp.get(e["result"]["ty"], e["result"]["ty"])
+    return S
 
 
 def all_opts(rustfmt=False, validate="none", mvs=("rust", "glam", "nalgebra")):
